@@ -359,11 +359,31 @@ func (rp *RepData) loadFromJSON(logger *slog.Logger, vodFS fs.FS, repDataDir, as
 	if rp == nil { // the JSON document null
 		return true, fmt.Errorf("repdata holds no representation")
 	}
+	if err := checkSegmentTable(rp.Segments); err != nil {
+		return true, fmt.Errorf("repdata: %w", err)
+	}
 	err = rp.addRegExpAndInit(logger, vodFS, assetPath)
 	if err != nil {
 		return true, fmt.Errorf("addRegExpAndInit: %w", err)
 	}
 	return true, nil
+}
+
+// checkSegmentTable checks that a segment table read from a file is usable: it has entries,
+// every segment ends after it starts, and every segment starts where the previous one ends.
+func checkSegmentTable(segs []Segment) error {
+	if len(segs) == 0 {
+		return fmt.Errorf("no segments")
+	}
+	for i, seg := range segs {
+		if seg.EndTime <= seg.StartTime {
+			return fmt.Errorf("segment %d ends at %d, not after its start %d", i, seg.EndTime, seg.StartTime)
+		}
+		if i > 0 && seg.StartTime != segs[i-1].EndTime {
+			return fmt.Errorf("segment %d starts at %d, the previous one ends at %d", i, seg.StartTime, segs[i-1].EndTime)
+		}
+	}
+	return nil
 }
 
 func (rp *RepData) addRegExpAndInit(logger *slog.Logger, vodFS fs.FS, assetPath string) error {
